@@ -72,8 +72,8 @@ func c10Starts(tf string) []int64 {
 	d := int64(hx.TFDuration(tf) / time.Second)
 	y := func(yy int) int64 { return time.Date(yy, 1, 1, 0, 0, 0, 0, time.UTC).Unix() }
 	out := []int64{
-		y(2019),                   // first interval of a year
-		y(2021) - d,               // last interval of a leap year
+		y(2019),     // first interval of a year
+		y(2021) - d, // last interval of a leap year
 		hx.SlotStart(y(2020)+59*86400+43200, time.Duration(d)*time.Second), // Feb 29 noon
 		hx.SlotStart(y(2022)+200*86400+12345, time.Duration(d)*time.Second),
 	}
